@@ -10,10 +10,11 @@ Record doc := { d_id : string; d_parents : list nat; d_data : value }.
 Record pstate := {
   heap : list doc;         (* every Document the history created, by allocation order *)
   pdocs : list nat;        (* Parser.docs *)
+  users : list nat;        (* documents created by the caller, in creation order (ops refer to these positions) *)
   failed : bool            (* a merge returned an error: Go state is then partially updated *)
 }.
 
-Definition init : pstate := {| heap := []; pdocs := []; failed := false |}.
+Definition init : pstate := {| heap := []; pdocs := []; users := []; failed := false |}.
 
 Inductive op :=
 | ONew (id : string) (parents : list nat) (data : value)   (* NewDocumentWithData + AddParents *)
@@ -93,12 +94,12 @@ Definition merge_document (st : pstate) (pi : nat) : pstate * res unit :=
       let ni := List.length h0 in
       let h1 := h0 ++ [{| d_id := (d_id (get_doc h0 pi) ++ "|matchnull")%string; d_parents := []; d_data := VNull |}] in
       let '(h2, r) := merge_into h1 [ni] pi in
-      ({| heap := h2; pdocs := pdocs st ++ [ni]; failed := negb (is_ok r) |}, r)
+      ({| heap := h2; pdocs := pdocs st ++ [ni]; users := users st; failed := negb (is_ok r) |}, r)
   | SelTargets l =>
       let '(h2, r) := merge_into h0 l pi in
-      ({| heap := h2; pdocs := pdocs st; failed := negb (is_ok r) |}, r)
-  | SelAppendSelf => ({| heap := h0; pdocs := pdocs st ++ [pi]; failed := false |}, Ok tt)
-  | SelNoMatch => ({| heap := h0; pdocs := pdocs st; failed := true |}, Err ENoMatch)
+      ({| heap := h2; pdocs := pdocs st; users := users st; failed := negb (is_ok r) |}, r)
+  | SelAppendSelf => ({| heap := h0; pdocs := pdocs st ++ [pi]; users := users st; failed := false |}, Ok tt)
+  | SelNoMatch => ({| heap := h0; pdocs := pdocs st; users := users st; failed := true |}, Err ENoMatch)
   end.
 
 Definition documents (st : pstate) : list value := map (fun i => d_data (get_doc (heap st) i)) (pdocs st).
@@ -107,9 +108,11 @@ Definition step (o : oracles) (st : pstate) (x : op) : pstate * out :=
   if failed st then (st, RSkipped) else
   match x with
   | ONew id ps data =>
-      ({| heap := heap st ++ [{| d_id := id; d_parents := ps; d_data := data |}]; pdocs := pdocs st; failed := false |},
-       RNew (List.length (heap st)))
-  | OMerge d => let '(st', r) := merge_document st d in (st', RMerge r)
+      let hp := map (fun u => nth u (users st) 0) ps in
+      ({| heap := heap st ++ [{| d_id := id; d_parents := hp; d_data := data |}]; pdocs := pdocs st;
+          users := users st ++ [List.length (heap st)]; failed := false |},
+       RNew (List.length (users st)))
+  | OMerge d => let '(st', r) := merge_document st (nth d (users st) 0) in (st', RMerge r)
   | ODocuments => (st, RDocs (documents st))
   | OOutput => (st, ROut (eval_docs o (documents st)))
   end.
